@@ -39,15 +39,122 @@ func (fc *FnCtx) flushPanics(o *Outcome) {
 
 func (fc *FnCtx) execBlock(stmts []ast.Stmt, st *State) *Outcome {
 	out := &Outcome{normal: st}
-	for _, s := range stmts {
+	for i, s := range stmts {
 		if out.normal == nil {
 			break // unreachable code
+		}
+		// tail duplication: a short, branch-free remainder after an `if` is executed once per branch
+		// instead of on the merged state (keeps return-site obligations per path)
+		if ifs, ok := s.(*ast.IfStmt); ok && ifs.Init == nil && i < len(stmts)-1 && fc.tailDup < 2 && simpleTail(stmts[i+1:]) && containsLoop(ifs) {
+			fc.tailDup++
+			c := fc.eval1(out.normal, ifs.Cond)
+			fc.flushPanics(out)
+			a, b := out.normal.clone(), out.normal.clone()
+			a.pc = fc.define("pc", "Bool", and(out.normal.pc, c.T))
+			b.pc = fc.define("pc", "Bool", and(out.normal.pc, not(c.T)))
+			var normals []*State
+			runRest := func(n *State) {
+				if n == nil {
+					return
+				}
+				rr := fc.execBlock(stmts[i+1:], n)
+				out.absorb(rr)
+				if rr.normal != nil {
+					normals = append(normals, rr.normal)
+				}
+			}
+			ra := fc.execBlock(ifs.Body.List, a)
+			out.absorb(ra)
+			runRest(ra.normal)
+			nb := b
+			if ifs.Else != nil {
+				rb := fc.execStmt(ifs.Else, b, "")
+				out.absorb(rb)
+				nb = rb.normal
+			}
+			runRest(nb)
+			fc.tailDup--
+			out.normal = fc.mergeAll(normals)
+			return out
 		}
 		r := fc.execStmt(s, out.normal, "")
 		out.normal = r.normal
 		out.absorb(r)
 	}
 	return out
+}
+
+func simpleTail(stmts []ast.Stmt) bool {
+	if len(stmts) > 3 {
+		return false
+	}
+	ok := true
+	for _, s := range stmts {
+		ast.Inspect(s, func(n ast.Node) bool {
+			switch n.(type) {
+			case *ast.ForStmt, *ast.RangeStmt, *ast.IfStmt, *ast.SwitchStmt, *ast.TypeSwitchStmt, *ast.SelectStmt, *ast.FuncLit, *ast.DeferStmt:
+				ok = false
+			}
+			return ok
+		})
+	}
+	return ok
+}
+
+func containsLoop(n ast.Node) bool {
+	found := false
+	ast.Inspect(n, func(n ast.Node) bool {
+		switch n.(type) {
+		case *ast.ForStmt, *ast.RangeStmt:
+			found = true
+		}
+		return !found
+	})
+	return found
+}
+
+// execBodyEnds executes a loop body; an `if` in tail position is not merged: each branch that reaches
+// the end of the body is returned as its own end state (smaller, more stable inv-preserve queries).
+func (fc *FnCtx) execBodyEnds(stmts []ast.Stmt, st *State, depth int) ([]*State, *Outcome) {
+	out := &Outcome{}
+	cur := st
+	for i, s := range stmts {
+		if cur == nil {
+			return nil, out
+		}
+		if i == len(stmts)-1 && depth < 3 {
+			if ifs, ok := s.(*ast.IfStmt); ok && ifs.Init == nil {
+				c := fc.eval1(cur, ifs.Cond)
+				fc.flushPanics(out)
+				a, b := cur.clone(), cur.clone()
+				a.pc = fc.define("pc", "Bool", and(cur.pc, c.T))
+				b.pc = fc.define("pc", "Bool", and(cur.pc, not(c.T)))
+				endsA, outA := fc.execBodyEnds(ifs.Body.List, a, depth+1)
+				out.absorb(outA)
+				var endsB []*State
+				switch e := ifs.Else.(type) {
+				case nil:
+					endsB = []*State{b}
+				case *ast.BlockStmt:
+					var outB *Outcome
+					endsB, outB = fc.execBodyEnds(e.List, b, depth+1)
+					out.absorb(outB)
+				default:
+					var outB *Outcome
+					endsB, outB = fc.execBodyEnds([]ast.Stmt{e}, b, depth+1)
+					out.absorb(outB)
+				}
+				return append(endsA, endsB...), out
+			}
+		}
+		r := fc.execStmt(s, cur, "")
+		cur = r.normal
+		out.absorb(r)
+	}
+	if cur == nil {
+		return nil, out
+	}
+	return []*State{cur}, out
 }
 
 func (fc *FnCtx) execStmt(s ast.Stmt, st *State, label string) *Outcome {
@@ -339,6 +446,7 @@ func (fc *FnCtx) assign(st *State, l ast.Expr, v Val) {
 		v = fc.assignConv(v, pt.Elem())
 		key := "P$" + fc.typeName(pt.Elem())
 		sort := fmt.Sprintf("(Array Int %s)", fc.sortOf(pt.Elem()))
+		fc.checkFrameKey(st, key, p.T, "write through pointer", x.Pos())
 		fc.heapSet(st, key, sort, app("store", fc.heapGet(st, key, sort), p.T, v.T))
 	default:
 		fc.fail(l.Pos(), "unsupported assignment target %T", l)
@@ -699,21 +807,36 @@ func arrayElemSort(s string) string {
 }
 
 func (fc *FnCtx) checkInvariants(st *State, ls *LoopSpec, kind string, pos token.Pos, scopePos token.Pos) {
+	// lemma instances requested for the loop are available at entry, at the head and at the end of the body
+	for _, u := range ls.Uses {
+		fc.useLemma(st, u, scopePos)
+	}
 	for i, inv := range ls.Invariants {
-		env := fc.newSpecEnv(st, fc.entry, scopePos)
-		v := env.evalBool(inv.E)
 		label := inv.Label
 		if label == "" {
 			label = fmt.Sprintf("%d", i+1)
 		}
-		fc.assertNamed(st, v, fmt.Sprintf("%s/loop%d", kind, ls.Ordinal), label, "loop invariant: "+inv.Text, pos)
+		parts := splitConj(inv.E)
+		fc.curNeeds, fc.curStrict = inv.Needs, inv.Strict
+		for j, part := range parts {
+			env := fc.newSpecEnv(st, fc.entry, scopePos)
+			v := env.evalBool(part)
+			l := label
+			if len(parts) > 1 {
+				l = fmt.Sprintf("%s.%d", label, j+1)
+			}
+			fc.assertNamed(st, v, fmt.Sprintf("%s/loop%d", kind, ls.Ordinal), l, "loop invariant: "+part.String(), pos)
+		}
+		fc.curNeeds, fc.curStrict = nil, false
 	}
 }
 
 func (fc *FnCtx) assumeInvariants(st *State, ls *LoopSpec, scopePos token.Pos) {
 	for _, inv := range ls.Invariants {
 		env := fc.newSpecEnv(st, fc.entry, scopePos)
+		fc.curFact = inv.Label
 		fc.assume(st, env.evalBool(inv.E))
+		fc.curFact = ""
 	}
 	for _, u := range ls.Uses {
 		fc.useLemma(st, u, scopePos)
@@ -756,15 +879,13 @@ func (fc *FnCtx) execFor(st *State, x *ast.ForStmt, label string) *Outcome {
 	} else {
 		exit = nil
 	}
-	rb := fc.execBlock(x.Body.List, body)
+	bodyEnds, rb := fc.execBodyEnds(x.Body.List, body, 0)
 	exits := []*State{}
 	if exit != nil {
 		exits = append(exits, exit)
 	}
 	ends := []*State{}
-	if rb.normal != nil {
-		ends = append(ends, rb.normal)
-	}
+	ends = append(ends, bodyEnds...)
 	for _, j := range rb.conts {
 		if j.label == "" || j.label == label {
 			ends = append(ends, j.st)
@@ -781,7 +902,14 @@ func (fc *FnCtx) execFor(st *State, x *ast.ForStmt, label string) *Outcome {
 	}
 	out.rets = append(out.rets, rb.rets...)
 	out.panics = append(out.panics, rb.panics...)
-	if end := fc.mergeAll(ends); end != nil {
+	// each way of reaching the end of the body is checked on its own (smaller queries than one merged state)
+	if len(ends) > 4 {
+		ends = []*State{fc.mergeAll(ends)}
+	}
+	for _, end := range ends {
+		if end == nil || end.pc == "false" {
+			continue
+		}
 		if x.Post != nil {
 			r := fc.execStmt(x.Post, end, "")
 			out.absorb(r)
@@ -791,8 +919,49 @@ func (fc *FnCtx) execFor(st *State, x *ast.ForStmt, label string) *Outcome {
 			fc.checkInvariants(end, ls, "inv-preserve", x.Pos(), scopePos)
 		}
 	}
+	fc.checkExits(exits, ls, x.Pos(), scopePos)
 	out.normal = fc.mergeAll(exits)
+	// every exit state satisfies the exit clauses (proved above), and the merged state is one of them
+	if out.normal != nil && len(exits) > 1 {
+		for _, c := range ls.Exits {
+			fc.curFact = c.Label
+			for _, part := range splitConj(c.E) {
+				env := fc.newSpecEnv(out.normal, fc.entry, scopePos)
+				fc.assume(out.normal, env.evalBool(part))
+			}
+			fc.curFact = ""
+		}
+	}
 	return out
+}
+
+// checkExits asserts the loop's `exit` clauses on each exit state separately (then they are known in the merge).
+func (fc *FnCtx) checkExits(exits []*State, ls *LoopSpec, pos token.Pos, scopePos token.Pos) {
+	for _, ex := range exits {
+		if ex == nil || ex.pc == "false" {
+			continue
+		}
+		for _, u := range ls.Uses {
+			fc.useLemma(ex, u, scopePos)
+		}
+		for i, c := range ls.Exits {
+			label := c.Label
+			if label == "" {
+				label = fmt.Sprint(i + 1)
+			}
+			parts := splitConj(c.E)
+			fc.curNeeds, fc.curStrict = c.Needs, c.Strict
+			for j, part := range parts {
+				env := fc.newSpecEnv(ex, fc.entry, scopePos)
+				l := label
+				if len(parts) > 1 {
+					l = fmt.Sprintf("%s.%d", label, j+1)
+				}
+				fc.assertNamed(ex, env.evalBool(part), fmt.Sprintf("loop-exit/loop%d", ls.Ordinal), l, "loop exit fact: "+part.String(), pos)
+			}
+			fc.curNeeds, fc.curStrict = nil, false
+		}
+	}
 }
 
 func (fc *FnCtx) execRange(st *State, x *ast.RangeStmt, label string) *Outcome {
@@ -1174,4 +1343,25 @@ func (fc *FnCtx) execSelect(st *State, x *ast.SelectStmt, label string) *Outcome
 func (fc *FnCtx) chanRecv2(st *State, x *ast.UnaryExpr) []Val {
 	fc.fail(x.Pos(), "channel receive (outside subset here)")
 	return nil
+}
+
+// splitConj splits a spec formula into conjuncts, also under `forall ... :: g ==> (a && b)`.
+func splitConj(e *SExpr) []*SExpr {
+	switch {
+	case e.Kind == SBinary && e.Name == "&&":
+		return append(splitConj(e.Args[0]), splitConj(e.Args[1])...)
+	case e.Kind == SBinary && e.Name == "==>":
+		var out []*SExpr
+		for _, p := range splitConj(e.Args[1]) {
+			out = append(out, &SExpr{Kind: SBinary, Name: "==>", Args: []*SExpr{e.Args[0], p}, Pos: e.Pos})
+		}
+		return out
+	case e.Kind == SQuant && e.Name == "forall":
+		var out []*SExpr
+		for _, p := range splitConj(e.Args[0]) {
+			out = append(out, &SExpr{Kind: SQuant, Name: "forall", Vars: e.Vars, Trigs: e.Trigs, Args: []*SExpr{p}, Pos: e.Pos})
+		}
+		return out
+	}
+	return []*SExpr{e}
 }
